@@ -958,6 +958,31 @@ func wrappers(path string) []string {
 	return out
 }
 
+// valueReceivers: every method of ds/list_impl.go whose receiver is not a pointer ("Type.Method"). A method of the
+// wrapper with a value receiver locks a COPY of the mutex (and go vet's copylocks is not part of the build); a method
+// of the inner list or of an element with a value receiver works on a copy of the atomics.
+func valueReceivers(path string) []string {
+	fset := token.NewFileSet()
+	file, err := parser.ParseFile(fset, path, nil, 0)
+	if err != nil {
+		return []string{"error: " + err.Error()}
+	}
+	var out []string
+	for _, d := range file.Decls {
+		fd, ok := d.(*ast.FuncDecl)
+		if !ok || fd.Recv == nil || len(fd.Recv.List) != 1 {
+			continue
+		}
+		if _, isPtr := fd.Recv.List[0].Type.(*ast.StarExpr); isPtr {
+			continue
+		}
+		_, typ := recvType(fd)
+		out = append(out, typ+"."+fd.Name.Name)
+	}
+
+	return out
+}
+
 // constructors: the printed bodies (go/printer, one trimmed line per entry) of the three constructors; the model's
 // initial state is "two lists fresh from newList(), which calls Init".
 func constructors(path string) []string {
@@ -1036,6 +1061,14 @@ func main() {
 	for i, w := range wrappers(os.Args[3]) {
 		if i > 0 {
 			b.WriteString(",\n  ")
+		}
+		b.WriteString("\"" + w + "\"")
+	}
+	b.WriteString("]\n\n")
+	fmt.Fprintf(&b, "/-- methods of ds/list_impl.go with a value (non-pointer) receiver (must be none) -/\ndef hive_value_receivers : List String := [")
+	for i, w := range valueReceivers(os.Args[3]) {
+		if i > 0 {
+			b.WriteString(", ")
 		}
 		b.WriteString("\"" + w + "\"")
 	}
